@@ -144,6 +144,17 @@ def pick(R, tdy):
     return p, ast, names, rs[0], rs[1]
 
 
+def planned_update(case, p, ast, start, tdy):
+    names = list(ref.parts_in(ast))
+    st = updates.new_state_from_text(p, start, tdy)
+    fl = gen.gen_flags(random.Random(case["seed"] ^ 5), names, applicable_only=True)
+    fl["pin_date"] = False
+    if "PATCH" in names:
+        fl["patch"] = True
+    date = dt.date(max(st.get("year_y") or 2021, 2001), st.get("month") or 6, min(st.get("dom") or 15, 28))
+    return fl, date
+
+
 def observe(ctx, case, d, env, p, ast, tdy, cur, tags_all, tags_merged, scope, cli_scope, ignore, backend, kinds,
             fetch_fails=False):
     """`scope` is the tag scope of the config file; `cli_scope` (or None) is given to `update` as --tag-scope and
@@ -193,13 +204,7 @@ def observe(ctx, case, d, env, p, ast, tdy, cur, tags_all, tags_merged, scope, c
                       f"scope={scope} ignore={ignore} config={cur!r} tags={tags_all} merged={tags_merged}", case=case, observed=desc)
         return
     # update --dry: same start; the announced version never equals an existing tag (any branch)
-    names = list(ref.parts_in(ast))
-    st = updates.new_state_from_text(p, got, tdy)
-    fl = gen.gen_flags(random.Random(case["seed"] ^ 5), names, applicable_only=True)
-    fl["pin_date"] = False
-    if "PATCH" in names:
-        fl["patch"] = True
-    date = dt.date(max(st.get("year_y") or 2021, 2001), st.get("month") or 6, min(st.get("dom") or 15, 28))
+    fl, date = planned_update(case, p, ast, got, tdy)
     uargs = ["update", "--dry", fetch_arg] + gen.flags_to_args(fl, date) + (["--ignore-vcs-tag"] if ignore else [])
     if cli_scope:
         uargs += ["--tag-scope", cli_scope]
@@ -221,8 +226,12 @@ def observe(ctx, case, d, env, p, ast, tdy, cur, tags_all, tags_merged, scope, c
             ctx.violation("other:wrong_start_version", f"update --dry starts from {old!r}; expected one of "
                           f"{sorted(acceptable)} ({why}); scope={scope}", case=case, observed=desc)
         a = ures.record_value("New Version: ")
-        if not ignore:
+        if not ignore or scope == "branch":
+            # (with --ignore-vcs-tag the tag invariant is waived by the user - except in branch scope, where the
+            # uniqueness check against the tags of ALL branches is the documented safeguard and stays in force)
             ctx.count("uniqueness_checked")
+            if ignore:
+                ctx.count("uniqueness_checked_under_ignore_in_branch_scope")
             if a in tags_all:
                 ctx.violation("other:new_version_equals_existing_tag", f"{uargs}: announced {a!r} is an existing tag "
                               f"(scope={scope}, tags={tags_all})", case=case, observed=desc)
@@ -243,6 +252,14 @@ def run_fake(ctx, case):
     m = [t for t in tags_all if matches(ast, t, tdy)]
     if m and R.random() < 0.3:
         cur = max(m, key=vkey)
+    if ignore and R.random() < 0.6:
+        # the version the planned update arrives at already exists as a tag on ANOTHER branch
+        fl, date = planned_update(case, p, ast, cur, tdy)
+        exp, _why = updates.model_bump(p, cur, fl, date, tdy)
+        if exp is not None and exp not in tags_all:
+            tags_all.append(exp)
+            kinds.add("valid")
+            ctx.count("planned_result_is_a_tag_elsewhere")
     d = harness.new_project(make_project(p, cur, scope if (scope != "default" or R.random() < 0.5) else None))
     fake = harness.FakeVCS(d, "git")
     try:
